@@ -13,8 +13,18 @@ VARIABLE i
 Init == i = 1
 Hidden == {"q", "k", "z", "y"}
 Markup == {"\\", "{", "}", "$"}
+\* C09, supply routes: the first r.ndef symbols (definitions) were not part of the text given to the filter
+\* but supplied through --defs or a file read by \LTinput; r.prefix is what stands in their place.
+\* The expectation is that of the complete document, positions shifted by the constant difference.
+Shifted(exp0, k, p) ==
+  [exp0 EXCEPT !.src = SubSeq(@, k+1, Len(@)),
+               !.items = [m \in 1..Len(exp0.items) |->
+                  IF exp0.items[m].t \in {"c","f","g"} THEN [exp0.items[m] EXCEPT !.lo = (@ + p) - k, !.hi = (@ + p) - k] ELSE exp0.items[m]]]
 Judge(r) ==
-  LET exp == Ref(r.doc) IN
+  LET exp0 == Ref(r.doc)
+      k == Len(ConcAll(SubSeq(r.doc, 1, r.ndef)))
+      sh == Shifted(exp0, k, Len(r.prefix))
+      exp == [sh EXCEPT !.src = r.prefix \o @] IN
   IF exp.src # r.src THEN [id |-> r.id, bind |-> "source-text-differs-from-document"]
   ELSE LET v == Verdict(exp, r.plain, r.map)
            allowed == {exp.items[m].ch : m \in {m \in 1..Len(exp.items) : exp.items[m].t \in {"c","f"}}}
